@@ -28,6 +28,7 @@ def judge(ctx, cases, tag, chunk=4000):
             if v is None:
                 raise Infra("no verdict for " + c["id"])
             ctx.evaluations += 1
+            getattr(ctx, "static_verdicts", {})[c["id"]] = v
             if v["unspec"]:
                 ctx.dropped[v["rule"]] = ctx.dropped.get(v["rule"], 0) + 1
                 continue
